@@ -323,7 +323,7 @@ func TestC07(t *testing.T) {
 	} else {
 		r.Exhaustive("exh-small", 0, parts["exh-small"])
 	}
-	r.Rapid("random", r.N(200000, 3000000), random)
+	r.Rapid("random", r.N(200000, 10000000), random)
 	_ = strings.TrimSpace
 }
 
